@@ -55,7 +55,7 @@ type E2EPlay struct {
 // after printing its last line (else all handlers linger 0.3 s, so that the
 // line has certainly been read before the process is gone).  small: few lines.
 func writeE2E(rng *rand.Rand, dir string, n int, immediate, small bool) {
-	g := &Gen{R: rng, Modalities: cmd.VerifModalities()}
+	g := &Gen{R: rng, Modalities: cmd.VerifModalities(), NonFinite: true}
 	var plays []E2EPlay
 	for i := 0; i < n; i++ {
 		// several actors with a spotlight each - of one role, of different
@@ -416,9 +416,11 @@ func checkE2E(dir, out string) {
 					t = "TNsLoose " + coqZ(pt.Ns-off)
 				}
 				d := "DText " + coqS(escapeByHand(pt.Text))
-				if f.Kind != 0 {
+				if f.Kind != 0 && pt.Num != "" {
 					r, _ := new(big.Rat).SetString(pt.Num)
 					d = "DNum " + coqRat(r)
+				} else if f.Kind != 0 {
+					d = "DText " + coqS(pt.Text) // a scalar spelled Inf / NaN
 				}
 				ps = append(ps, fmt.Sprintf("(%d%%nat, %s, %s)", pt.Item, t, d))
 			}
